@@ -262,6 +262,40 @@ fn check_tape(tape: &[u8], gates: &Gates, codes: &[String], stats: &mut Stats, c
             return Err(fail("directory", "diagnostics-differ", format!("`check <dir>` reports {:?}, `check <files>` reports {:?}", kd, b.1)));
         }
     }
+    // (b3) a directory whose entries are (some of them) symbolic links to the files: the files of a
+    // directory are the files that can be read through its entries
+    if choice.ratio(1, 5) && gates.want("DIRECTORY_WITH_SYMBOLIC_LINKS") {
+        let linked = dir.path.join("linked");
+        let _ = std::fs::create_dir_all(&linked);
+        let all_links = choice.flag();
+        let mut made_link = false;
+        for (i, f) in files.iter().enumerate() {
+            let name = crate::drive::set_file_name(i);
+            if all_links || i == 0 {
+                made_link |= std::os::unix::fs::symlink(sub.join(&name), linked.join(&name)).is_ok();
+            } else {
+                let _ = std::fs::write(linked.join(&name), f.text.as_bytes());
+            }
+        }
+        if made_link {
+            if let (Some(o), Some(b)) = (observe_check(&["check".to_string(), linked.to_string_lossy().to_string()]), &base) {
+                if counting {
+                    stats.class("check.directory.with-symbolic-links");
+                }
+                channels_agree(&o, codes, "check <dir with links>").map_err(|(k, d)| fail("channels", &k, d))?;
+                if (o.status == Some(0)) != (b.0 == Some(0)) {
+                    return Err(fail("directory", "exit-differs", format!("`check <dir whose entries are links to the files>` exits {:?} with {:?}, `check <files>` exits {:?}", o.status, o.diags.iter().map(|d| d.code.clone()).collect::<Vec<_>>(), b.0)));
+                }
+                let mut c1: Vec<String> = o.diags.iter().map(|d| d.code.clone()).collect();
+                let mut c2: Vec<String> = b.1.iter().map(|d| d.0.clone()).collect();
+                c1.sort();
+                c2.sort();
+                if c1 != c2 {
+                    return Err(fail("directory", "diagnostics-differ", format!("`check <dir whose entries are links to the files>` reports {:?}, `check <files>` reports {:?}", c1, c2)));
+                }
+            }
+        }
+    }
     // (b2) the same set reached twice: the directory plus one of its files, or one file under two
     // spellings (relative, ./, dir/../dir) - still the same set of files
     if choice.ratio(1, 3) && gates.want("SAME_FILE_REACHED_TWICE") {
